@@ -298,3 +298,31 @@ def any_warn(cat, names):
 def fold_is_worst(cat, names, s0):
     """the fold over a list equals 'failure if any failure, else warning if any warning, else unchanged' (order independent)"""
     return fold_algs(cat, names, s0) == status_after(s0, any_fail(cat, names), any_warn(cat, names))
+
+
+# ---------------------------------------------------------------------------------------------- Terrapin (C04): the published rule
+def is_chacha(c):
+    return c.startswith('chacha20-poly1305')
+
+
+def is_cbc(c):
+    return c.endswith('-cbc') or c.endswith('-cbc@openssh.org') or c.endswith('-cbc@ssh.com') or c == 'rijndael-cbc@lysator.liu.se'
+
+
+def is_etm(m):
+    return m.endswith('-etm@openssh.com')
+
+
+@recursive('list[str]->list[str]', fuel=1)
+def filter_chacha(xs):
+    return xs if len(xs) == 0 else (filter_chacha(xs[:-1]) + [xs[-1]] if is_chacha(xs[-1]) else filter_chacha(xs[:-1]))
+
+
+@recursive('list[str]->list[str]', fuel=1)
+def filter_cbc(xs):
+    return xs if len(xs) == 0 else (filter_cbc(xs[:-1]) + [xs[-1]] if is_cbc(xs[-1]) else filter_cbc(xs[:-1]))
+
+
+@recursive('list[str]->list[str]', fuel=1)
+def filter_etm(xs):
+    return xs if len(xs) == 0 else (filter_etm(xs[:-1]) + [xs[-1]] if is_etm(xs[-1]) else filter_etm(xs[:-1]))
